@@ -20,10 +20,26 @@ def ret_assignments(fn):
     out = []
 
     def expand(local, b, depth):
-        """definitions of a plain local moved into the return place (look through `let r = ..; r` and inlined helpers)"""
+        """definitions of a plain local moved into the return place (look through `let r = ..; r` and inlined helpers, also
+        when one of several definitions is itself the forwarded result of a helper spliced in: `a()?; b()` inside a helper that
+        is the tail of another)"""
         res = []
-        for db, e in fn.root_defs(local):
-            res.append((db, e))
+        for (dp, db, i, kind, payload) in fn.defs(local):
+            if dp:
+                continue
+            if kind == "rv" and payload["k"] == "use" and depth < 4:
+                pl = payload["a"].get("copy") or payload["a"].get("move")
+                if pl is not None and not pl["p"] and not (1 <= pl["l"] <= fn.nargs) and pl["l"] != local:
+                    sub = expand(pl["l"], db, depth + 1)
+                    if len(sub) > 1:
+                        res.extend(sub)
+                        continue
+            if kind == "rv":
+                res.append((db, fn._rvalue(payload, frozenset([local]), 40, db)))
+            elif kind == "call":
+                res.append((db, fn._call_expr(payload, db, frozenset([local]), 40)))
+        if len(res) <= 1:
+            return [(db, e) for db, e in fn.root_defs(local)]
         return res
     for (dp, b, i, kind, payload) in fn.defs(0):
         if dp:
@@ -766,6 +782,8 @@ def const_skipping_paths(fn, start, must_blocks, stop_blocks, cut_edges=(), limi
             c = op["const"]
             if c.get("kind") == "bool":
                 return ("bool", bool(c.get("value")))
+            if c.get("kind") == "int" and isinstance(c.get("value"), int) and not isinstance(c.get("value"), bool) and c.get("value") >= 0:
+                return ("int", c["value"])
             return None
         pl = op.get("copy") or op.get("move")
         if pl and not pl["p"]:
@@ -805,6 +823,25 @@ def const_skipping_paths(fn, start, must_blocks, stop_blocks, cut_edges=(), limi
                 elif rv["k"] == "un" and rv.get("op") == "Not":
                     a = opval(env, rv["a"])
                     v = ("bool", not a[1]) if a and a[0] == "bool" else None
+                elif rv["k"] == "bin":
+                    # a counter used as a flag (`digits += 1` ... `if digits == 0`): zero, or "at least one" once something was added
+                    a, b_ = opval(env, rv["a"]), opval(env, rv["b"])
+                    num = lambda x: x is not None and x[0] in ("int", "pos")
+                    op_ = rv.get("op")
+                    unsigned = str(rv.get("ty") or "").startswith("u")
+                    posc = lambda x: x is not None and (x[0] == "pos" or (x[0] == "int" and x[1] > 0))
+                    if op_ in ("Add", "AddWithOverflow", "AddUnchecked") and unsigned and ((posc(a) and (b_ is None or num(b_))) or (posc(b_) and (a is None or num(a)))):
+                        # an unsigned quantity plus at least one (a count of things read from a string cannot wrap)
+                        v = ("tuple", (("pos",), None)) if op_ == "AddWithOverflow" else ("pos",)
+                    elif op_ in ("Add", "AddWithOverflow", "AddUnchecked") and num(a) and num(b_) and ((a[0] == "pos" or a[1] > 0) or (b_[0] == "pos" or b_[1] > 0)):
+                        v = ("tuple", (("pos",), None)) if op_ == "AddWithOverflow" else ("pos",)
+                    elif op_ in ("Eq", "Ne", "Lt", "Le", "Gt", "Ge") and num(a) and num(b_):
+                        if a[0] == "int" and b_[0] == "int":
+                            v = ("bool", {"Eq": a[1] == b_[1], "Ne": a[1] != b_[1], "Lt": a[1] < b_[1], "Le": a[1] <= b_[1], "Gt": a[1] > b_[1], "Ge": a[1] >= b_[1]}[op_])
+                        elif a[0] == "pos" and b_ == ("int", 0):
+                            v = ("bool", {"Eq": False, "Ne": True, "Lt": False, "Le": False, "Gt": True, "Ge": True}[op_])
+                        elif b_[0] == "pos" and a == ("int", 0):
+                            v = ("bool", {"Eq": False, "Ne": True, "Lt": True, "Le": True, "Gt": False, "Ge": False}[op_])
             if v is None:
                 env.pop(l, None)
             else:
@@ -818,6 +855,13 @@ def const_skipping_paths(fn, start, must_blocks, stop_blocks, cut_edges=(), limi
                     v = ("variant", "Continue")
                 elif a and a[0] == "variant" and a[1] in ("Err", "None"):
                     v = ("variant", "Break")
+            elif (t.get("decl") or "").endswith("FromResidual::from_residual"):
+                # what `?` hands back on its failure edge is the failure: Err(..) of a Result, None of an Option
+                dty = str(t.get("dest_ty") or "")
+                if dty.startswith("core::result::Result<"):
+                    v = ("variant", "Err")
+                elif dty.startswith("core::option::Option<"):
+                    v = ("variant", "None")
             if v is None or t["dest"]["l"] in escaped:
                 env.pop(t["dest"]["l"], None)
             else:
@@ -831,13 +875,21 @@ def const_skipping_paths(fn, start, must_blocks, stop_blocks, cut_edges=(), limi
             from l4sa.core import SwitchInfo
             v = opval(env, t["discr"])
             si = SwitchInfo(fn, b)
-            if v is not None:
+            if v is not None and v[0] == "pos":
+                keep = [(tt, env) for lab, tt in si.labelled_edges() if lab not in (0, "0")]
+                if keep:
+                    return keep
+            elif v is not None and v[0] != "tuple":
                 want = v[1]
                 if si.is_bool and si.negated and isinstance(want, bool):
                     want = not want
-                tg = [tt for lab, tt in si.labelled_edges() if lab == want]
+                tg = [tt for lab, tt in si.labelled_edges() if lab == want or (v[0] == "int" and str(lab) == str(want))]
                 if len(tg) == 1:
                     return [(tg[0], env)]
+                if v[0] == "int":
+                    oth = [tt for lab, tt in si.labelled_edges() if lab == "otherwise"]
+                    if len(oth) == 1 and not tg:
+                        return [(oth[0], env)]
             # an unknown enum value becomes known on the edge taken: `match r { Ok(..) => .., Err(e) => break Err(e) }`
             pl = t["discr"].get("copy") or t["discr"].get("move")
             src = None
